@@ -23,6 +23,7 @@
                  'base64_charset keeps its initial value (mutable static pointer never written by base64.cpp; re-established by C18_RESTORE_STATICS because '
                  'goto-instrument --apply-loop-contracts havocs mutable statics)',
                  'cxx2c rules listed in the evidence carry the C++ semantics over (std::string operations -> stub calls, return by value -> struct copy)'],
+ 'timeout': 600,
  'witness': {'unwind': 8},
 } @*/
 #include "vc.h"
